@@ -45,8 +45,8 @@ func (a *LabelFilterPlanner) makeFilter(filter *logql_parser.LabelFilter) (func(
 		err error
 	)
 	if filter.Head.SimpleHead != nil {
-		if contains([]string{"=", "=~", "!~"}, filter.Head.SimpleHead.Fn) ||
-			(filter.Head.SimpleHead.Fn == "!=" && filter.Head.SimpleHead.StrVal != nil) {
+		if contains([]string{"=~", "!~"}, filter.Head.SimpleHead.Fn) ||
+			(contains([]string{"=", "!="}, filter.Head.SimpleHead.Fn) && filter.Head.SimpleHead.StrVal != nil) {
 			res, err = a.stringSimpleFilter(filter.Head.SimpleHead)
 			if err != nil {
 				return nil, err
@@ -148,7 +148,7 @@ func (a *LabelFilterPlanner) numberSimpleFilter(filter *logql_parser.SimpleLabel
 		fn = func(val float64) bool {
 			return val <= iVal
 		}
-	case "==":
+	case "==", "=":
 		fn = func(val float64) bool {
 			return iVal == val
 		}
